@@ -176,13 +176,19 @@ def closure_of(props_file):
             continue
         seen.append(f)
         text = (COQ / f).read_text()
-        for m in re.finditer(r"(?:From\s+SV\s+)?Require\s+(?:Import|Export)?\s*([^.]*(?:\.[A-Za-z][^.\s]*)*)\.", text):
-            for mod in m.group(1).split():
-                mod = mod.strip()
+        text = re.sub(r"\(\*.*?\*\)", " ", text, flags=re.S)
+        for m in re.finditer(r"\bRequire\b", text):
+            rest = text[m.end():m.end() + 2000]
+            end = re.search(r"\.(\s|$)", rest)
+            if not end:
+                continue
+            for mod in rest[:end.start()].split():
+                if mod in ("Import", "Export"):
+                    continue
                 if mod.startswith("SV."):
                     mod = mod[3:]
                 cand = mod.replace(".", "/") + ".v"
-                if (COQ / cand).exists():
+                if re.fullmatch(r"[\w./']+", cand) and (COQ / cand).exists():
                     todo.append(cand)
     return seen
 
